@@ -2,14 +2,14 @@ SPECIFICATION Spec
 CONSTANTS
   P = 4096
   Sizes = {0, 1, 511, 512, 513, 4095, 4096, 4097, 8192, 12289}
-  Offs = {0, 100, 512, 4096}
+  Offs = {0, 256, 4096}
   ESizes = {1, 8, 16}
   WPos = {0, 1, 4095, 4096, 4097, 8191, 8192, 12288, 32767, 65535}
-  F0s = {0, 1, 4095, 4096, 4097, 10000}
+  F0s = {0, 1, 4095, 4096, 4097, 10000, 70000}
   FdKinds = {"anon", "rw", "ro", "bad"}
   MaxOps = 12
   MaxWrites = 5
-  MaxObjs = 3
+  MaxObjs = 4
   ExportHist = TRUE
 INVARIANTS WindowOK ViewOK NoSigbus FileOK ErrOK TypedOK Export
 CHECK_DEADLOCK FALSE
